@@ -22,3 +22,13 @@ package sign
 //@   assert_at[C01] ResultRound "return r.ResultRound(sig)": typeis(arg1, taproot.Signature) ==> (r.taproot && bip340_valid(xbytes(ptval(r.Y)), bval(arg1.(taproot.Signature)), bval(r.M)))
 //@   assert_at[C01] ResultRound "return r.ResultRound(sig)": typeis(arg1, Signature) ==> (!r.taproot && schnorr_valid(arg1.(Signature).R, arg1.(Signature).z, r.Y, r.M))
 //@   assert_at[C01] ResultRound "return r.ResultRound(sig)": typeis(arg1, taproot.Signature) || typeis(arg1, Signature)
+
+// ---- start function (C20): a session is created only for non-nil key material, a non-empty message and a signer
+// set that is duplicate-free, contains this party, has more than threshold members and only shareholders.
+//@ func StartSignCommon$1
+//@   nopanic[C20]
+//@   requires v_result != nil ==> fcfgwf(v_result)
+//@   ensures[C20] result1 != nil ==> result0 == nil
+//@   ensures[C20] result1 == nil ==> (v_result != nil && len(messageHash) > 0 && result0 != nil)
+//@   ensures[C20] result1 == nil ==> forall(j, party.ID, inslice(signers, j) ==> indom(v_result.VerificationShares.Points, j))
+//@   loop 1: invariant each(helper.partyIDs[:rangeindex+1], j, indom(v_result.VerificationShares.Points, j))
